@@ -231,6 +231,26 @@ fn c06_sigmap(f: &Facts, sc: &Sc) {
 
 fn c06_end(f: &Facts, sc: &Sc) {
 	c06_sigmap(f, sc);
+	// (a) the requested signal comes first, whatever the grace period (zero included): in a
+	// script whose only process-ending operations are graceful ones, nothing may be killed
+	// that was not sent one of their signals before
+	let only_graceful_endings = !sc.drop_handle
+		&& sc.op_fault.is_none()
+		&& sc.script.iter().all(|(o, _)| !matches!(o, Op::Stop | Op::Restart | Op::TryRestart | Op::Delete | Op::DeleteNow | Op::SigKill | Op::ContinueRaw | Op::SigVar(_)));
+	if only_graceful_endings {
+		for (i, r) in f.log.iter().enumerate() {
+			if let Ev::Kill { id, .. } = &r.ev {
+				let signalled = f.log[..i].iter().any(|x| matches!(&x.ev, Ev::Sig { id: c, .. } if c == id));
+				if !signalled {
+					let ops: Vec<String> = sc.script.iter().filter(|(o, _)| o.is_graceful()).map(|(o, _)| format!("{o:?}")).collect();
+					f.push(
+						format!("C06/killed-without-the-requested-signal/{}", ops.first().cloned().unwrap_or_default()),
+						format!("kill#{id} at t{} (log {i}) with no signal delivered to that process before; grace {}", r.t, sc.grace),
+					);
+				}
+			}
+		}
+	}
 	// (e) a graceful restart starts the replacement exactly once
 	if sc.spawn_fail_at.is_some() || sc.op_fault.is_some() || sc.drop_handle {
 		return;
